@@ -7,6 +7,7 @@ import ChalkModel.Shift
 import ChalkModel.Flags
 import ChalkModel.OpsMatch
 import ChalkModel.OpsAggregate
+import ChalkModel.OpsSem
 import ChalkModel.OpsInPlace
 import ChalkModel.OpsCoherence
 
@@ -50,20 +51,12 @@ def opsIR : Sexp → Option Sexp
       some (resToSexp Ty.toSexp (foldTy Folder.noop 0 (← Ty.ofSexp? t)))
   | _ => none
 
+/-- all op tables; add new ones at the end of this list -/
+def allOps : List (Sexp → Option Sexp) :=
+  [opsIR, opsMatch, opsAggregate, opsInPlace, opsCoherence, Chalk.Sem.opsSem]
+
 def dispatch (req : Sexp) : Sexp :=
-  match opsIR req with
-  | some r => r
-  | none =>
-  match opsMatch req with
-  | some r => r
-  | none =>
-  match opsAggregate req with
-  | some r => r
-  | none =>
-  match opsInPlace req with
-  | some r => r
-  | none =>
-  match opsCoherence req with
+  match allOps.findSome? (fun f => f req) with
   | some r => r
   | none => badOp
 
